@@ -378,6 +378,17 @@ func Sweep(repo, overlayPath string) int {
 	if prog.Norm != nil {
 		fmt.Printf("NORMALISED rounds=%d expanded=%d removed=%d fallback=%q\n", prog.Norm.Rounds, len(prog.Norm.Expanded), len(prog.Norm.Removed), prog.Norm.Fallback)
 	}
+	if out := os.Getenv("MLB_RECORD_ANCHORS"); out != "" {
+		// the functions of this tree that the rules treat as anchors (tools/gen_anchors.sh, on the confirmed tree)
+		var keys []string
+		for _, f := range prog.Funcs() {
+			if f.Decl != nil && chk.Anchors.Has(f) {
+				keys = append(keys, chk.AnchorKey(f))
+			}
+		}
+		sort.Strings(keys)
+		os.WriteFile(out, []byte(strings.Join(keys, "\n")+"\n"), 0o644)
+	}
 	rc := 0
 	for _, id := range ids {
 		pr := props[id]
